@@ -287,6 +287,8 @@ def run_history(case, alphabet, check_mirror):
     """case: {seed, d (ranks), dflt, t (initial tree), n, len, kind}"""
     ft = H.ft()
     depth, dflt, n = case["d"], case["dflt"], case["n"]
+    if case.get("fdflt"):
+        dflt = float(dflt)      # the same default as a float: other copy / boxing paths in the library
     rng = random.Random(case["hseed"])
     root = H.build_fiber(case["t"], depth, dflt)
     tensor = None
@@ -298,7 +300,7 @@ def run_history(case, alphabet, check_mirror):
     if structural:
         alphabet = [k for k in alphabet if k in STRUCTURAL] or STRUCTURAL
     for _ in range(case["len"]):
-        op = gen_op(rng, root, depth, dflt, n, alphabet, structural)
+        op = gen_op(rng, root, depth, case["dflt"], n, alphabet, structural)
         before = H.snapshot(root)
         rb = H.rank_paths(tensor) if (check_mirror and tensor is not None) else None
         if op["k"] == "iadd":
